@@ -11,9 +11,14 @@ PID = "C18"
 PROPS_MODULE = "NumbersModel.Props.C18"
 THEOREMS = [f"NumbersModel.Props.C18.{t}" for t in (
     "tokenize_lossless", "tokenize_total", "tokenize_terminates", "quotes_not_split", "dq_literal_wellformed",
-    "sq_literal_wellformed", "tables_as_modelled", "dispatch_chars_end_tokens", "error_codes_ok")]
-PARTIAL = {"reader_output_accepted": "clause 4 (every formula the reader emits is accepted) is not a theorem yet: it needs C08's "
-                                     "renderer model; it is exercised on all formulas read from the fixtures (oracle, exploration)"}
+    "sq_literal_wellformed", "tables_as_modelled", "dispatch_chars_end_tokens", "error_codes_ok",
+    "grammar_accepted", "reader_output_accepted_partial")]
+PARTIAL = {"reader_output_accepted_partial": "clause 4 is proved for every text of the formula grammar G (grammar_accepted) and, through "
+                                             "C08's exec_compile, for every well-formed stored expression that is TokSafe: all constructors "
+                                             "except array literals, operand / function-name texts plain. Not proved: array literals and "
+                                             "references that need quoting (names with operator characters, behind a prefix, with apostrophes); "
+                                             "those are exercised on all fixture formulas and on C08/C09 generated texts (oracle), and the "
+                                             "apostrophe case is a recorded finding"}
 RULE = ("quick: every string of length <= 3 over a 35-symbol alphabet (letters, digits, E, ., space, newline, all operator/"
         "separator glyphs incl. typographic ones, both quotes, # $ !), every string of length <= 8 over {\",',a,:,space}, "
         "every string of length <= 6 over {1,9,0,.,E,+,-,newline} (scientific-notation regex), seeded strings of length 4..40 "
